@@ -134,6 +134,13 @@ def oracle(ck, sc, rec, label):
         if w_after_train is not None and not acts_theta and sn['w'] != w_after_train:
             ck.fail('valid_epoch_pure/after', 'parameters after the validation epoch differ from the ones after the training step', inp,
                     expected=w_after_train, actual=sn['w'])
+    # ---- nothing (a solution object, get_residuals, get_internals, ...) may switch the parameters' gradients off
+    for sn in rec['epochs'] + [f['pre'] for f in rec['fits']] + [rec['final']]:
+        if not all(sn.get('trainable', [True])):
+            ck.fail('solution_calls/freeze-parameters', 'a network parameter no longer requires grad (after get_solution / get_residuals / '
+                    'a Solution object was created): later epochs record a loss but the optimiser moves nothing', inp,
+                    expected=[True] * len(sn['trainable']), actual=sn['trainable'])
+            break
     # ---- loss_fn was handed (residuals (n, n_eq), all funcs, all coordinates)
     for e in rec['log']:
         if e[0] == 'loss' and (e[2] != nf or e[3] != ncoords or e[4][1] != cfg['neq']):
@@ -169,12 +176,21 @@ def regression_scenarios():
           'conds': [{'kind': 'var', 'tag': 5}], 'ncoords': 3, 'nmetrics': 0, 'lid': 0, 'loss_form': 'none', 'nbt': 1, 'nbv': 1,
           'opt': {'kind': 'sgd', 'lr': 0.25}, 'train_script': [[[1, 2], [2, 0], [3, 1]]], 'valid_script': [[[2, 2], [1, 1], [0, 3]]],
           'ops': [{'op': 'fit', 'max_epochs': 1, 'cbs': rec_cb}]}
+    reads = {'cfg': {'cls': 'S1D', 'kappa': [1], 'netof': [0], 'neq': 1, 'idx': [], 'ext': False}, 'w0': [0.5],
+             'conds': [{'kind': 'var', 'tag': 5}], 'ncoords': 1, 'nmetrics': 0, 'lid': 0, 'loss_form': 'none', 'nbt': 1, 'nbv': 1,
+             'opt': {'kind': 'sgd', 'lr': 0.25}, 'train_script': [[[1, 2]], [[0, 3]]], 'valid_script': [[[2, 2]]],
+             'ops': [{'op': 'fit', 'max_epochs': 2, 'cbs': rec_cb},
+                     {'op': 'get_solution', 'copy': False, 'best': False},
+                     {'op': 'eval', 'sol': 0, 'shape': [2], 'coords': [[1, 2]], 'as': 'tensor', 'to_numpy': False, 'no_reshape': False},
+                     {'op': 'residuals', 'best': False, 'shape': [2], 'coords': [[1, 2]], 'as': 'ndarray', 'to_numpy': True, 'no_reshape': False},
+                     {'op': 'act', 'act': {'kind': 'get_internals'}},
+                     {'op': 'fit', 'max_epochs': 2, 'cbs': rec_cb}]}
     bundle = {'cfg': {'cls': 'Bundle', 'kappa': [1, 2], 'netof': [0, 1], 'neq': 2, 'idx': [2, 0, 2], 'ext': True}, 'w0': [0.5, -0.25],
               'conds': [{'kind': 'var', 'tag': 5}, {'kind': 'none', 'tag': 0}], 'ncoords': 4, 'nmetrics': 1, 'lid': 0, 'loss_form': 'none',
               'nbt': 2, 'nbv': 1, 'opt': {'kind': 'sgd', 'lr': 0.25},
               'train_script': [[[1, 2], [2, 0], [3, 1], [-1, 2]], [[0, 1], [1, 1], [2, -2], [3, 0]]],
               'valid_script': [[[2, 2], [1, 1], [0, 3], [1, -1]]], 'ops': [{'op': 'fit', 'max_epochs': 2, 'cbs': rec_cb}]}
-    return [('fixed-F9-spherical-variadic', f9, True), ('bundle-eq-param-index', bundle, True)]
+    return [('fixed-F9-spherical-variadic', f9, True), ('bundle-eq-param-index', bundle, True), ('reads-between-fits', reads, True)]
 
 
 def main():
@@ -209,9 +225,13 @@ def main():
                                 nmetrics=(0, 1), n_fits=(1, 3))
             rec = camp.add(f'trace#{i}', sc, exact=False)
         else:
+            # every third scenario interleaves calls that must only READ the solver (get_solution in all copy/best combinations,
+            # evaluations, get_residuals, get_internals) with the fits: the parameters must keep moving exactly as modelled
+            reads = i % 3 == 1
             sc = T.gen_scenario(r, opt_kinds=('sgd', 'script', 'sgd'), cb_actions=('stop', 'set_loss', 'set_opt'),
-                                between_actions=('set_loss',) if i % 5 == 0 else (), lids=(0, 1, 0, 2, 3), max_epochs=(0, 5),
-                                nmetrics=(0, 2), variadic_spherical=(i % 3 != 0))
+                                between_actions=('get_internals', 'set_loss') if reads else (('set_loss',) if i % 5 == 0 else ()),
+                                lids=(0, 1) if reads else (0, 1, 0, 2, 3), max_epochs=(1, 4) if reads else (0, 5),
+                                nmetrics=(0, 2), variadic_spherical=(i % 3 != 0), sol_ops=reads, n_fits=(2, 4) if reads else (1, 4))
             rec = camp.add(f'exact#{i}', sc, exact=True)
         if rec and i % 3 == 0:
             trajectory_oracle(ck, sc, rec)
